@@ -35,6 +35,7 @@ func doProposal014(instructionSet *JumpTable) {
 		constantGas: StakeGas,
 		minStack:    minStack(2, 1),
 		maxStack:    maxStack(2, 1),
+		writes:      true,
 	}
 
 	instructionSet[UNSTAKE] = &operation{
@@ -42,6 +43,7 @@ func doProposal014(instructionSet *JumpTable) {
 		constantGas: UnStakeGas,
 		minStack:    minStack(2, 1),
 		maxStack:    maxStack(2, 1),
+		writes:      true,
 	}
 
 	instructionSet[GETSTAKE] = &operation{
@@ -56,6 +58,7 @@ func doProposal014(instructionSet *JumpTable) {
 		constantGas: UnStakeAllGas,
 		minStack:    minStack(1, 1),
 		maxStack:    maxStack(1, 1),
+		writes:      true,
 	}
 
 	instructionSet[STAKENUM] = &operation{
